@@ -313,9 +313,13 @@ class HttpDataTransform:
                 headers[key] = val
             elif step == "uri_append":
                 uri += data
-            elif step == "parameter" or step == "_parameter":
+            elif step == "parameter":
                 assert isinstance(step_val, bytes)
                 params[step_val] = data
+            elif step == "_parameter":
+                assert isinstance(step_val, bytes)
+                key, _, val = step_val.partition(b"=")
+                params[key] = val
             elif step == "build":
                 if step_val == "output":
                     data = c2data.output or b""
@@ -388,7 +392,7 @@ class HttpDataTransform:
                     build_id = data
                 elif step_val == "metadata":
                     build_metadata = data
-            elif step in ("_header", "_hostheader"):
+            elif step in ("_header", "_hostheader", "_parameter"):
                 pass
             else:
                 raise ValueError("Unknown recover step with value: {}".format((step, step_val)))
